@@ -249,6 +249,25 @@ func scenProducer(r *run) {
 		r.finish("infra", "generated config invalid: "+err.Error())
 	}
 	cl.onProduce = ps.onProduce
+	r.classify = ps.historyClass
+	r.finalClass = func(v *cf.Violation) {
+		// the epoch bump precedes the delivery of the error event that causes it: for the idempotent
+		// producer the fact 'some message got an error outcome in this run' is added once the run is over
+		if !ps.c.Config.Idempotent || strings.Contains(v.Class, "error-outcome-in-run") {
+			return
+		}
+		for _, mi := range ps.msgs {
+			for _, ev := range mi.events {
+				if !ev.ok {
+					if v.Class != "" {
+						v.Class += ","
+					}
+					v.Class += "error-outcome-in-run"
+					return
+				}
+			}
+		}
+	}
 	cl.onView = ps.recordView
 	ps.recordView()
 
@@ -576,6 +595,39 @@ func (ps *prodScen) onHang(dump string) {
 	ps.judge()
 }
 
+// historyClass: facts about the run so far that known-finding predicates may refer to.
+func (ps *prodScen) historyClass() string {
+	var cls []string
+	if ps.c.Config.Idempotent {
+		cls = append(cls, "idempotent")
+	} else {
+		cls = append(cls, "plain")
+	}
+	f := ps.r.faults
+	if f["drop-after"]+f["drop-before"]+f["silence"]+f["conn-reset"]+f["broker-crash"]+f["refuse"]+f["dial-timeout"] > 0 {
+		cls = append(cls, "conn-failure")
+	}
+	nf := 0
+	for _, n := range f {
+		nf += n
+	}
+	if nf == 0 {
+		cls = append(cls, "fault-free")
+	}
+	ps.mu.Lock()
+	for _, mi := range ps.msgs {
+		for _, ev := range mi.events {
+			if !ev.ok {
+				cls = append(cls, "after-error-outcome")
+				goto done
+			}
+		}
+	}
+done:
+	ps.mu.Unlock()
+	return strings.Join(cls, ",")
+}
+
 // classifyLoss describes a lost outcome for known-finding predicates (history facts only).
 func (ps *prodScen) classifyLoss() string {
 	var cls []string
@@ -590,6 +642,12 @@ func (ps *prodScen) classifyLoss() string {
 	}
 	if nf == 0 {
 		cls = append(cls, "fault-free")
+	}
+	if h := ps.historyClass(); strings.Contains(h, "conn-failure") {
+		cls = append(cls, "conn-failure")
+	}
+	if h := ps.historyClass(); strings.Contains(h, "after-error-outcome") {
+		cls = append(cls, "after-error-outcome")
 	}
 	never := true
 	for _, mi := range ps.msgs {
@@ -728,6 +786,9 @@ func (ps *prodScen) seqClass(ids []string) string {
 	}
 	if ps.r.faults["drop-after"]+ps.r.faults["drop-before"]+ps.r.faults["silence"]+ps.r.faults["conn-reset"]+ps.r.faults["broker-crash"] > 0 {
 		cls = append(cls, "conn-failure")
+	}
+	if strings.Contains(ps.historyClass(), "after-error-outcome") {
+		cls = append(cls, "after-error-outcome")
 	}
 	sort.Strings(cls)
 	return strings.Join(uniq(cls), ",")
@@ -912,9 +973,7 @@ func (ps *prodScen) judge() {
 				if rec != nil {
 					got = fmt.Sprintf("m%d", idOfValue(rec.val))
 				}
-				if c.Config.Idempotent {
-					cls = "idempotent"
-				}
+				cls = ps.historyClass()
 				if !logHas(p, mi.id) {
 					if c.Config.Idempotent {
 						r.violateClass("C05.success-not-in-log", cls, "m%d reported successful at %s@%d but the log does not contain it", mi.id, p.key(), ev.offset)
@@ -1100,6 +1159,9 @@ func (ps *prodScen) dupClass(mi *msgInfo, p *mpart, first int64, second *mrec) s
 	}
 	if ps.r.faults["drop-after"]+ps.r.faults["drop-before"]+ps.r.faults["silence"]+ps.r.faults["conn-reset"]+ps.r.faults["broker-crash"] > 0 {
 		cls = append(cls, "conn-failure")
+	}
+	if strings.Contains(ps.historyClass(), "after-error-outcome") {
+		cls = append(cls, "after-error-outcome")
 	}
 	return strings.Join(cls, ",")
 }
